@@ -107,7 +107,7 @@ class Evaluator:
             return
         ctx.evaluation()
         rcl = mc_red.refclass(ref)
-        ref_cl = mc_red.classes(ref.records)
+        ref_cl = mc_red.explored_classes(ref)
         # self-check of the canonical form: the partition by Foata normal form must be the partition by partial order
         by_hb = {}
         for r in ref.complete():
@@ -120,8 +120,9 @@ class Evaluator:
         ctx.count("reference.classes", len(ref_cl))
         ctx.maximum("reference.classes_max", len(ref_cl))
         ctx.count("programs.%s" % case["pop"])
-        if ref.traces is not None and ref.traces != sum(1 for r in ref.records if r.kind == "END"):
-            ctx.count("hook_vs_checker.explored_traces_differ")
+        if ref.ended_unlogged:
+            raise core.HarnessFailure("C40: %d execution(s) that the checker completed on '%s' were not logged by the application"
+                                      % (ref.ended_unlogged, case["name"]))
         if len(ref_cl) >= 2 and nref > len(ref_cl):
             ctx.nontrivial(case["spec"])
         if len(ctx.samples) < ctx.max_samples:
@@ -142,7 +143,11 @@ class Evaluator:
             done = res.complete()
             ctx.count("runs.%s" % cfg.name())
             ctx.count("executions.odpor", len(done))
-            cl = mc_red.classes(res.records)
+            if res.ended_unlogged:
+                ctx.count("executions.completed_but_not_logged", res.ended_unlogged)
+            if res.unacked:
+                ctx.count("terminal_states.reached_but_not_explored", res.unacked)
+            cl = mc_red.explored_classes(res)
             dups = sorted((v for v in cl.values() if len(v) > 1), key=lambda v: v[0].trace)
             if dups:
                 a, b = dups[0][0], dups[0][1]
@@ -173,7 +178,7 @@ class Evaluator:
             res = run.run(cfg, budget, extra=["--cfg=model-check/debug-optimality:on"])
             if not res.timed_out:
                 theirs = "equivalent with an already explored one" in res.log
-                cl = mc_red.classes(res.records)
+                cl = mc_red.explored_classes(res)
                 mine = any(len(v) > 1 for v in cl.values())
                 ctx.count("debug_optimality.%s" % ("agree" if theirs == mine else ("only_simgrid_says_dup" if theirs else "only_oracle_says_dup")))
 
